@@ -416,12 +416,15 @@ theorem plan_mem (name : Nat → Nat) (cfgOk : Nat → Bool) (facs : List Fac) (
 
 /-! ### statements the code does not satisfy at full strength -/
 
-/-- "Every configured updater is fetched" is false when two configured
+/-- The clause "every configured updater is fetched" read at full strength —
+    `∀ i ∈ toRun r, worker (r,i) is driven` — is false when two configured
     updaters share a name (possible across factories): the second one finds
     the lock taken and is skipped without being fetched and without an error.
-    That is the price of `same_name_exclusive`; `free_name_is_driven` is the
-    statement that does hold. -/
-theorem same_name_second_skipped_counterexample :
+    That is the price of `same_name_exclusive` (the statement's own second
+    sentence).  What holds instead: `all_configured_run` (every configured
+    updater gets its worker, which finishes), `skipped_iff_same_name_holder`
+    (the exact condition for being skipped) and `free_name_is_driven`. -/
+theorem every_configured_fetched_counterexample :
     let u : Upd := { name := 7, kind := .plain, getOk := fun _ => true, fetch := fun _ _ => (.ok, 1),
                      parse := fun _ => some ⟨[1], []⟩, storeOk := fun _ => true }
     let env : Env := { upd := fun _ => u, batch := fun _ => 2, toRun := fun _ => [0, 1], stubSets := fun _ => 0,
@@ -466,9 +469,10 @@ theorem gc_call_needs_lock (env : Env) (s : State) (r : Nat) (h : (step env s (.
     · cases h
   · cases h
 
-/-- A cancelled run returns no error for the updaters it never started:
-    `Run` reports failures of driveUpdater only. -/
-theorem cancelled_run_returns_nil_counterexample :
+/-- Observation (not part of the statement): a cancelled run returns no error
+    for the updaters it never started; `Run` reports failures of driveUpdater
+    only (the `+1` slot of errChan "for a potential ctx error" is never used). -/
+theorem cancelled_run_reports_no_error :
     let u : Upd := { name := 7, kind := .plain, getOk := fun _ => true, fetch := fun _ _ => (.ok, 1),
                      parse := fun _ => some ⟨[1], []⟩, storeOk := fun _ => true }
     let env : Env := { upd := fun _ => u, batch := fun _ => 2, toRun := fun _ => [0, 1], stubSets := fun _ => 0,
